@@ -12,6 +12,14 @@ CHECKS = {
          "Generated multi-function programs containing the syntactic idioms the five optimizing passes match are run from 6 initial machine states each in the harness' own interpreter before and after normalize_optimize; event traces (reads, writes, calls, indirect jumps, returns, dead ends incl. all physical registers) must be equal; a failing case is attributed to the first pass after which traces differ. Exploration: random search with coverage labels and floors, no exhaustiveness.",
          "Trusted: irinterp/refsem as IR semantics (total: x/0:=0); temporaries are block-local; all registers havocked after calls; entry SP 64-byte aligned. Open known finding: CFG has no edge for CallOther returns (excluded class, counted).",
          "DESIGN.md §3 C10"),
+ "C11": ("differential testing: generated P-Code blocks x initial states, independent P-Code interpreter (byte-array registers) vs independent IR interpreter on the block lifted by the real code (proptest tapes, shrinking)",
+         "Random register tables with nested sub-registers and random typed P-Code blocks (all integer mnemonics, sub-registers, same-name smaller varnodes, temporaries, constants, RAM operands, LOAD/STORE, cast-to-base idioms, every jump kind) are serialized in the plugin's JSON shape, deserialized, normalized and lifted by the real code; both interpreters run from 4 states; final base registers, ordered memory writes, reads and the branch decision/jump target must agree. Exploration with coverage floors.",
+         "Trusted: harness P-Code interpreter/refsem/irinterp. Generator emits only operand kinds the Ghidra plugin emits (no RAM outputs for LOAD, CBRANCH/RETURN operands not in RAM, BOOL ops on 0/1 values).",
+         "DESIGN.md §3 C11"),
+ "C12": ("generated P-Code programs pushed through the real lifting + normalization chain; validity predicate = independent typing walk recomputing all expression sizes (proptest tapes, shrinking)",
+         "Whole generated P-Code programs (several functions/blocks, same generator as C11) are lifted and run through normalize_basic and normalize_optimize; after each stage every Def/Jmp is size-checked by the harness' own typing rules (same-size operands, Piece/Subpiece/extension consistency, assignment size = variable size, load/store address = pointer size, 1-byte conditions); a failure names the stage/pass.",
+         "Trusted: the typing rules in checks/c12.rs (from the IR documentation); generated P-Code is well-typed by construction.",
+         "DESIGN.md §3 C12"),
 }
 
 NOT_APPLICABLE = {}
